@@ -238,6 +238,10 @@ def dimensions : Nat → Text → Except Err (List Int × List Text × Text)
       | .error e => .error e
       | .ok (sh, nm, b6) => .ok (n :: sh, nm, b6)
 
+/-- `if len(dimensions) != len(shape): dimensions = ()` (parsers/dds.py `base`, repair of round 7): a declaration that
+    names only some of its dimensions keeps its shape and gets no dimension names -/
+def fitDims (sh : List Int) (dims : List Text) : List Text := if dims.length = sh.length then dims else []
+
 /-- `base()` -/
 def base (buf : Text) : Except Err (BaseV × Text) :=
   match consumeClass isWord buf with
@@ -254,7 +258,7 @@ def base (buf : Text) : Except Err (BaseV × Text) :=
   | .ok (sh, dims, b3) =>
   match consumeLit [';'] b3 with
   | .error e => .error e
-  | .ok b4 => .ok (⟨quoteName nm, dt, sh, dims, true⟩, b4)   -- `BaseType(name, DummyData(dtype, shape), dimensions=…)`
+  | .ok b4 => .ok (⟨quoteName nm, dt, sh, fitDims sh dims, true⟩, b4)   -- `BaseType(name, DummyData(dtype, shape), dimensions=…)`
 
 /-- `container[var.name] = var` (StructureType.__setitem__): an existing key is deleted first -/
 def addChildB (acc : List BaseV) (v : BaseV) : List BaseV := acc.filter (fun x => x.name != v.name) ++ [v]
